@@ -620,3 +620,120 @@ func runR87(c *Ctx) {
 		})
 	}
 }
+
+// ---- R110: small guards of the CSV scanner ----
+
+func init() {
+	register(&Rule{ID: "R110", Name: "CSV-GUARDS", Floor: 4,
+		Text: "in internal/fastcsv: (a) a guard `len(x) > k` whose protected accesses are only of the last element x[len(x)-1] has k = 0 - the CR of a CRLF line end is stripped from the last field of rows of every width, also single-column rows; (b) the wrapper that defers an io.EOF delivered together with data does so whenever at least one byte was read (`n > 0`), so a final read of a single byte is not lost; (c) in the scanner methods that report progress by a bool, a reader error other than io.EOF that is stored into the sticky error field is followed by `return false`: scanning stops at the failure instead of treating the partial field as data",
+		Run:  runR110})
+}
+
+func runR110(c *Ctx) {
+	p := c.P
+	for _, fn := range p.FuncsIn("internal/fastcsv") {
+		fnm := fname(fn)
+		eachInstr(fn, func(in ssa.Instruction) {
+			switch t := in.(type) {
+			case *ssa.If:
+				cond, _ := unNot(t.Cond, true)
+				b, ok := cond.(*ssa.BinOp)
+				if !ok {
+					return
+				}
+				// (b) err == io.EOF && n > k: the count test
+				if isIntegerType(b.X.Type()) {
+					if pr, ok := b.X.(*ssa.Extract); ok {
+						if call, ok := pr.Tuple.(*ssa.Call); ok && pr.Index == 0 {
+							if o := calleeObj(call); o != nil && o.Name() == "Read" {
+								k, isK := constInt(b.Y)
+								key := fnm + "|EOF with data"
+								if isK && (b.Op == token.GTR && k == 0 || b.Op == token.NEQ && k == 0 || b.Op == token.GEQ && k == 1) {
+									c.ok(key, p.instrPos(t), "deferred whenever a byte was read")
+								} else if isK {
+									c.bad(key, p.instrPos(t), fmt.Sprintf("the byte count of a Read is tested as `n %s %d`: a read that returns one last byte together with io.EOF loses that byte", b.Op, k))
+								}
+								return
+							}
+						}
+					}
+				}
+				// (a) len(x) > k guarding x[len(x)-1]
+				call, ok := b.X.(*ssa.Call)
+				if !ok || builtinName(call) != "len" || b.Op != token.GTR {
+					return
+				}
+				k, isK := constInt(b.Y)
+				if !isK {
+					return
+				}
+				want := accessPath(call.Call.Args[0])
+				lastOnly, any := true, false
+				eachInstr(fn, func(i2 ssa.Instruction) {
+					ia, ok := i2.(*ssa.IndexAddr)
+					if !ok || accessPath(ia.X) != want || !t.Block().Dominates(ia.Block()) || ia.Block() == t.Block() {
+						return
+					}
+					any = true
+					sub, ok := ia.Index.(*ssa.BinOp)
+					if !ok || sub.Op != token.SUB {
+						lastOnly = false
+						return
+					}
+					if c1, ok := constInt(sub.Y); !ok || c1 != 1 {
+						lastOnly = false
+					}
+				})
+				if !any || !lastOnly {
+					return
+				}
+				key := fnm + "|last-element guard on " + want
+				if k == 0 {
+					c.ok(key, p.instrPos(t), "len > 0 protects the access to the last element")
+				} else {
+					c.bad(key, p.instrPos(t), fmt.Sprintf("the last element of %s is handled only when len > %d: rows (or fields) of %d element(s) skip the handling - the CR of a CRLF line end stays in a single-column row", want, k, k))
+				}
+			case *ssa.Store:
+				// (c)
+				fa, ok := t.Addr.(*ssa.FieldAddr)
+				if !ok || fieldNameAt(fa) != "err" || !isErrorType(t.Val.Type()) {
+					return
+				}
+				if cst, ok := t.Val.(*ssa.Const); ok && cst.IsNil() {
+					return
+				}
+				res := fn.Signature.Results()
+				if res.Len() != 1 {
+					return
+				}
+				if bt, ok := res.At(0).Type().Underlying().(*types.Basic); !ok || bt.Kind() != types.Bool {
+					return
+				}
+				// under err == io.EOF? then end of input, true is fine
+				eof := false
+				for _, g := range dominatingGuards(t.Block()) {
+					if bo, ok := g.Cond.(*ssa.BinOp); ok && bo.Op == token.EQL && g.Val {
+						if ld, ok := bo.Y.(*ssa.UnOp); ok {
+							if gl, ok := ld.X.(*ssa.Global); ok && gl.Name() == "EOF" {
+								eof = true
+							}
+						}
+					}
+				}
+				if eof {
+					return
+				}
+				if _, isGlobalEOF := t.Val.(*ssa.UnOp); isGlobalEOF {
+					return // fs.err = io.EOF
+				}
+				key := fnm + "|stop at reader failure"
+				ret, ok := t.Block().Instrs[len(t.Block().Instrs)-1].(*ssa.Return)
+				if ok && isConstBool(ret.Results[0], false) {
+					c.ok(key, p.instrPos(t), "the failure is recorded and scanning stops")
+				} else if ok {
+					c.bad(key, p.instrPos(t), "a reader failure is recorded but the method reports progress (true): the row scan continues on incomplete data and the failure can be overwritten")
+				}
+			}
+		})
+	}
+}
